@@ -187,13 +187,21 @@ def config_strategy(draw):
 
 
 @st.composite
-def step_strategy(draw, n):
+def step_strategy(draw, n, after_relayout=False):
     names = sorted(ops.OPS) + list(EXTRA)
-    op = draw(st.sampled_from(names))
+    forced_mask = None
+    if after_relayout and draw(st.booleans()):
+        # the shape that matters: a reduction with a slice / positional mask after a re-layout
+        op = draw(st.sampled_from(["sum", "min", "first", "last", "count", "size", "mean", "max"]))
+        forced_mask = draw(st.sampled_from(["slice", "pos"]))
+    elif not after_relayout and draw(st.sampled_from([True, False, False])):
+        op = draw(st.sampled_from(sorted(RELAYOUT & set(names)) + ["sum_transform", "groups"]))
+    else:
+        op = draw(st.sampled_from(names))
     step = {"op": op}
     if op in ops.OPS:
         o = ops.OPS[op]
-        mk = draw(st.sampled_from(o.masks))
+        mk = forced_mask or draw(st.sampled_from(o.masks))
         kinds = [k for k in "fi" if k in o.value_kinds] or ["f"]
         dt = {"f": ("float64",), "i": ("int64", "int32")}[draw(st.sampled_from(kinds))]
         step["vals"] = draw(S.value_column(n, dtypes=dt, regime="exact"))
@@ -231,7 +239,8 @@ def drive(sub, variant, ctx, n_examples, seed_int, shrink_budget_s):
 
             @rule(data_=st.data())
             def step(self, data_):
-                step = data_.draw(step_strategy(self.case["cfg"]["n"]))
+                relaid = any(s_["op"] in RELAYOUT or s_["op"].endswith("_transform") for s_ in self.case["steps"])
+                step = data_.draw(step_strategy(self.case["cfg"]["n"], after_relayout=relaid))
                 self.case["steps"].append(step)
                 import time as _t
 
